@@ -52,7 +52,9 @@ def run(ck):
         h = [float(v) for v in rr.integers(0, 4, size=iters + 1)]
         c = dict(iters=iters, scores=h, minimize=bool(rr.integers(0, 2)), early=bool(rr.integers(0, 2)),
                  mult=float(rr.choice([1.0, 1.1, 1.5])), rb=bool(rr.integers(0, 2)), arg=iters)
-        o = sc.run_real_fit(xr, c['iters'], c['arg'], c['scores'], 'mse' if c['minimize'] else 'accuracy', c['early'], c['mult'], c['rb'])
+        c['ctor_metric'] = [None, 'accuracy', 'mse'][c['iters'] % 3]
+        o = sc.run_real_fit(xr, c['iters'], c['arg'], c['scores'], 'mse' if c['minimize'] else 'accuracy', c['early'], c['mult'], c['rb'],
+                            ctor_metric=c['ctor_metric'])
         ck.case(dict(c, observed=o), nontrivial=iters >= 1, sample=(k % 701 == 3))
         ck.count('scripted rb=%s es=%s' % (c['rb'], c['early']))
         if o['crashed'] is not None:
